@@ -19,6 +19,7 @@ const nativePrelude = `//go:build verif
 package %s
 
 import (
+	"context"
 	"crypto/sha1"
 	"strconv"
 
@@ -108,6 +109,7 @@ func vLive(b []byte) bool               { return true }
 func vDeadlocked() bool                 { return false }
 func vNondetErr(name string) error      { return nil }
 func vHavocBytes(b []byte, name string) {}
+func vLiveContext() context.Context { return context.Background() }
 func vUnsafeClass(k int)        {}
 func vOutUnsafe() bool          { return false }
 func vLastEncoded() interface{} { return nil }
